@@ -23,9 +23,13 @@ open VaxisModel.Spec VaxisModel.Spec.Display VaxisModel.Spec.Expected
 open VaxisModel.Model.Render (Cell Caps)
 open VaxisModel.Model.C12Read
 
-/-- `enc` inverts `dec` on the strings of one application cell. -/
+/-- `enc` inverts `dec` on the strings of one application cell as they are shown: grapheme, URL, and the
+    OSC 8 parameter FIELD (`paramField`: the parameters up to the first `;` — what `render()` writes since
+    the F112b repair — and nothing for a cell without a URL). -/
 def EncCell (enc : G → String) (dec : String → G) (c : Cell) : Prop :=
-  enc (dec c.g) = c.g ∧ enc (dec c.style.link) = c.style.link ∧ enc (dec c.style.linkParams) = c.style.linkParams
+  enc (dec c.g) = c.g ∧ enc (dec c.style.link) = c.style.link ∧
+  enc (dec (paramField (if c.style.link = "" then "" else c.style.linkParams))) =
+    paramField (if c.style.link = "" then "" else c.style.linkParams)
 
 theorem rowRel_cons {dec : String → G} {a : DCell} {as : List DCell} {b : ECell} {bs : Row}
     (h : RowRel dec (a :: as) (b :: bs)) : CellRel dec a b ∧ RowRel dec as bs := by
@@ -37,12 +41,7 @@ theorem readCell_expected {enc : G → String} {dec : String → G} (cw : String
     (h20 : enc (dec "20") = "20") (hemp : enc (dec "") = "") (hc : EncCell enc dec c)
     (h : CellRel dec (expectedCell cw caps c) b) :
     readCell enc b = expectedCell cw caps c ∧ b.w - 1 = (cellWidth cw c).toNat - 1 := by
-  obtain ⟨hg, hl, hp⟩ := hc
-  have hlp : enc (dec (if c.style.link = "" then "" else c.style.linkParams)) =
-      (if c.style.link = "" then "" else c.style.linkParams) := by
-    split
-    · exact hemp
-    · exact hp
+  obtain ⟨hg, hl, hlp⟩ := hc
   unfold expectedCell at h ⊢
   simp only at h ⊢
   split at h
